@@ -17,6 +17,7 @@ pub mod ops_remove;
 pub mod ops_views;
 pub mod props;
 pub mod tset;
+#[cfg(feature = "lib_alloc")]
 pub mod typepairs;
 pub mod world;
 
